@@ -18,7 +18,7 @@ RegexFlags == {"focus", "ignore", "hide", "show", "show_from", "tagshow", "taghi
 RegexVals == {"f", "(", "", ".*", "[", "a**", "\\", "(?i)F", "f|", "^$"}
 TagVals == {"k", "1:", ":1", "1mb:2gb", "99999999999999999999", "1:99999999999999999999", "1xyz:2", "-5:", "1:2:3", "bytes=1:2", "=:", "k=", "=x", "1mb:2s", "0:0", ","}
 NumFlags == {"nodecount", "nodefraction", "edgefraction", "divide_by"}
-NumVals == {"0", "-1", "1", "999999999999", "0.5", "2", "NaN", "1e999", "-0", "1e-300", "Inf", "abc", ""}
+NumVals == {"0", "-1", "-2", "-7", "1", "999999999999", "0.5", "2", "NaN", "1e999", "-0", "1e-300", "Inf", "abc", ""}
 OtherOpts == { <<"sample_index", v>> : v \in {"0", "1", "5", "-1", "s1", "nosuch", ""} }
          \cup { <<"unit", v>> : v \in {"", "ms", "parsecs", "auto", "minimum", "B", "MB"} }
          \cup { <<"symbolize", v>> : v \in {"none", "local", "remote", "force", "fastlocal", "demangle=none", "demangle=bogus", "bogus", "force:remote:demangle=full", ""} }
